@@ -103,6 +103,58 @@ namespace xv
         static X f(X const& a, long p) { return (T)p * a; }
     };
 
+    // scalar-operand spellings
+    XV_SCALAR_RHS(op_add_rs, a + s)
+    XV_SCALAR_LHS(op_add_ls, s + b)
+    XV_SCALAR_RHS(op_sub_rs, a - s)
+    XV_SCALAR_LHS(op_sub_ls, s - b)
+    XV_SCALAR_RHS(op_mul_rs, a* s)
+    XV_SCALAR_LHS(op_mul_ls, s* b)
+    XV_SCALAR_RHS(op_div_rs, a / s)
+    XV_SCALAR_LHS(op_div_ls, s / b)
+    XV_SCALAR_RHS(op_mod_rs, a % s)
+    XV_SCALAR_LHS(op_mod_ls, s % b)
+    XV_SCALAR_RHS(op_and_rs, a& s)
+    XV_SCALAR_LHS(op_and_ls, s& b)
+    XV_SCALAR_RHS(op_or_rs, a | s)
+    XV_SCALAR_LHS(op_or_ls, s | b)
+    XV_SCALAR_RHS(op_xor_rs, a ^ s)
+    XV_SCALAR_LHS(op_xor_ls, s ^ b)
+    struct op_add_rsa
+    {
+        template <class T, class X>
+        static X f(X const& a, X const& b, long)
+        {
+            T av[X::size], bv[X::size], rv[X::size];
+            a.store_unaligned(av);
+            b.store_unaligned(bv);
+            for (size_t l = 0; l < X::size; ++l)
+            {
+                X r(av[l]);
+                r += bv[l];
+                rv[l] = r.get(l);
+            }
+            return X::load_unaligned(rv);
+        }
+    };
+    struct op_mod_rsa
+    {
+        template <class T, class X>
+        static X f(X const& a, X const& b, long)
+        {
+            T av[X::size], bv[X::size], rv[X::size];
+            a.store_unaligned(av);
+            b.store_unaligned(bv);
+            for (size_t l = 0; l < X::size; ++l)
+            {
+                X r(av[l]);
+                r %= bv[l];
+                rv[l] = r.get(l);
+            }
+            return X::load_unaligned(rv);
+        }
+    };
+
     // ---- C07 ----
     XV_OP2(op_and, a& b)
     XV_OP2(op_or, a | b)
@@ -166,6 +218,18 @@ namespace xv
         reg_b<op_mod_assign>("C01", "mod.assign", it);
         reg_u<op_predec>("C01", "decr.preop", it);
         reg_u<op_postinc>("C01", "incr.postop", it);
+        reg_b<op_add_rs>("C01", "add.rs", it);
+        reg_b<op_add_ls>("C01", "add.ls", it);
+        reg_b<op_add_rsa>("C01", "add.rsa", it);
+        reg_b<op_sub_rs>("C01", "sub.rs", it);
+        reg_b<op_sub_ls>("C01", "sub.ls", it);
+        reg_b<op_mul_rs>("C01", "mul.rs", it);
+        reg_b<op_mul_ls>("C01", "mul.ls", it);
+        reg_b<op_div_rs>("C01", "div.rs", it);
+        reg_b<op_div_ls>("C01", "div.ls", it);
+        reg_b<op_mod_rs>("C01", "mod.rs", it);
+        reg_b<op_mod_ls>("C01", "mod.ls", it);
+        reg_b<op_mod_rsa>("C01", "mod.rsa", it);
         reg_u<op_add_scalar>("C01", "add.scalar", it);
         reg_u<op_mul_scalar>("C01", "mul.scalar", it);
 
@@ -186,6 +250,12 @@ namespace xv
         reg_b<op_shr_v>("C07", "shr.v", it);
         reg_b<op_lshift_v>("C07", "shl.v.fn", it);
         reg_b<op_rshift_v>("C07", "shr.v.fn", it);
+        reg_b<op_and_rs>("C07", "and.rs", it);
+        reg_b<op_and_ls>("C07", "and.ls", it);
+        reg_b<op_or_rs>("C07", "or.rs", it);
+        reg_b<op_or_ls>("C07", "or.ls", it);
+        reg_b<op_xor_rs>("C07", "xor.rs", it);
+        reg_b<op_xor_ls>("C07", "xor.ls", it);
         reg_b<op_and_assign>("C07", "and.assign", it);
         reg_b<op_or_assign>("C07", "or.assign", it);
         reg_b<op_xor_assign>("C07", "xor.assign", it);
